@@ -570,3 +570,12 @@ Fixpoint run (st : state) (ops : list op) : list out :=
   end.
 
 Definition run_history (L : Z) (ops : list op) : list out := run (init L) ops.
+
+(* the state after a history (same stopping rule as [run]) *)
+Fixpoint exec (st : state) (ops : list op) : state :=
+  match ops with
+  | [] => st
+  | o :: ops' =>
+      let '(st', r) := step st o in
+      match r with OutErr (-1) => st | _ => exec st' ops' end
+  end.
